@@ -12,10 +12,11 @@ structure Inv (k : Bool) (s : State) : Prop where
   hk : s.timed = k
   /-- `_shared_owners_count` never underflows: every shared holder is counted -/
   sh_cnt : s.sh.length ≤ s.cnt
-  /-- as long as no D5/D6 path was taken the flags describe the holders exactly -/
-  free0 : Clean s → s.occ = false → s.xh = [] ∧ s.sh = [] ∧ s.cnt = 0
-  xmode : Clean s → s.occ = true → s.excl = true → s.xh.length = 1 ∧ s.sh = [] ∧ s.cnt = 0
-  smode : Clean s → s.occ = true → s.excl = false → s.xh = [] ∧ s.sh.length = s.cnt ∧ 0 < s.cnt
+  /-- as long as no D5/D6 path was taken the flags describe the holders exactly: free / one writer / readers -/
+  modes : Clean s →
+    (s.occ = false ∧ s.xh = [] ∧ s.sh = [] ∧ s.cnt = 0) ∨
+    (s.occ = true ∧ s.excl = true ∧ s.xh.length = 1 ∧ s.sh = [] ∧ s.cnt = 0) ∨
+    (s.occ = true ∧ s.excl = false ∧ s.xh = [] ∧ s.sh.length = s.cnt ∧ 0 < s.cnt)
   dl_tx : ∀ g r d, s.pc g = .txParked r d → r ≤ d
   dl_ts : ∀ g r d, s.pc g = .tsParked r d → r ≤ d
 
